@@ -33,7 +33,7 @@
 From Coq Require Import List ZArith Bool.
 Import ListNotations.
 From Goat Require Import Model.Client Model.Server Model.Sys Proofs.SysLog Proofs.SysProofs Proofs.SysC01 Proofs.SysC02 Proofs.SysC02b
-  Proofs.SysC02c Proofs.SysC02d Proofs.SysC02e Proofs.SysC02f Proofs.SysC02h Proofs.SysC02j Proofs.SysC02k Proofs.SysC02l Proofs.SysC02m Proofs.SysC02n.
+  Proofs.SysC02c Proofs.SysC02d Proofs.SysC02e Proofs.SysC02f Proofs.SysC02h Proofs.SysC02j Proofs.SysC02k Proofs.SysC02l Proofs.SysC02m Proofs.SysC02n Proofs.SysC02o Proofs.SysC02p.
 Open Scope Z_scope.
 
 (* ====================== fault-free runs ====================== *)
@@ -149,7 +149,27 @@ Theorem C02_link_msg_frame : forall k b, fid (msg_frame k b) = fid (h_req k) /\ 
 Proof. exact SysC02k.C02_link_msg_frame. Qed.
 Print Assumptions C02_link_msg_frame.
 
+(* no envelope in the statement: the messages the handler's RecvMsg was given (bodies of the envelopes it took, in order)
+   are a PREFIX of the ARGUMENTS of the caller's SendMsg calls that returned nil, in call order ([csent]) *)
+Theorem C02_args_prefix_c2h : forall pol ls s h k c kc,
+  Sys.lrun pol Sys.init ls = Some s -> fault_free ls = true ->
+  (forall e, In (EvWrite e) (Client.log (cl s)) -> eid e = fid (h_req k) -> erst e = false) ->
+  nth_error (hs (sv s)) h = Some k -> h_unary k = false ->
+  nth_error (calls (cl s)) c = Some kc -> k_unary kc = false -> k_id kc = fid (h_req k) ->
+  exists fs, recv_results h (Server.log (sv s)) = map recv_res fs /\
+             is_prefix (tbodies (map f_env fs)) (csent c (Client.log (cl s))).
+Proof. exact SysC02p.C02_args_prefix_c2h. Qed.
+Print Assumptions C02_args_prefix_c2h.
+
 (* ====================== all runs: arbitrary faults, cancellation, resets ====================== *)
+(* the list-level link, caller -> handler: the body envelopes written under a stream's id, in wire order, are body_env id b
+   for the arguments b of the stream's SendMsg calls that returned nil, in call order *)
+Theorem C02_args_c2h : forall ls s c k,
+  Client.lrun Client.init ls = Some s -> nth_error (calls s) c = Some k -> k_unary k = false ->
+  filter hasb (by_id (k_id k) (cwrites (Client.log s))) = map (body_env (k_id k)) (csent c (Client.log s)).
+Proof. exact SysC02o.C02_args_c2h. Qed.
+Print Assumptions C02_args_c2h.
+
 Theorem C02_wire_c2s_prefix : forall pol ls s i, Sys.lrun pol Sys.init ls = Some s ->
   is_prefix (by_id i (map f_env (sreads (Server.log (sv s))))) (by_id i (cwrites (Client.log (cl s)))).
 Proof. exact wire_c2s_prefix_id. Qed.
@@ -245,6 +265,7 @@ Example C02_demo_complete :
          | None => False
          end
       /\ msgs 0 (Client.log (cl s)) = pb (accepted 1 (sv s))
+      /\ csent 0 (Client.log (cl s)) = [11; 12]
   | None => False
   end.
 Proof. vm_compute. repeat split; reflexivity. Qed.
